@@ -3,8 +3,9 @@
 import ast
 
 from .. import AnalysisError
-from ..astutil import src, call_name, dotted, walk_local, try_fold, ancestors
-from ..fn import FA
+from ..astutil import path_conditions, src, call_name, dotted, walk_local, try_fold, ancestors
+from ..fn import FA, expand
+from ..normal import canon_expr
 from ..poly import poly_of, NotPoly, Poly
 
 META = {
@@ -61,16 +62,35 @@ def check_columns(ctx, repo):
                         for s in ast.walk(b):
                             if isinstance(s, ast.Subscript) and isinstance(s.value, ast.Name) and s.value.id == 'a0' and isinstance(s.slice, ast.Constant):
                                 optional.add(s.slice.value)
-    pmaps = [n for n in walk_local(f_poly.node) if isinstance(n, ast.Dict) and n.keys and all(isinstance(v, ast.Constant) for v in n.values)]
-    ctx.need(pmaps, 'is_in_polygon: attribute -> column map not found')
-    pmap = {k.value: v.value for k, v in zip(pmaps[0].keys, pmaps[0].values)}
+    # attribute -> column pairs: `try: .. getattr(polygon, A) / polygon.A .. except AttributeError: .. polygon[C]` (table loops are unrolled)
+    pmap = {}
+    pmaps = []
+    poly = f_poly.params[0]
+    for n in walk_local(f_poly.node):
+        if isinstance(n, ast.Try) and any((dotted(h.type) or '').endswith('AttributeError') for h in n.handlers if h.type is not None):
+            attrs_ = []
+            for b in n.body:
+                for x in ast.walk(b):
+                    if isinstance(x, ast.Call) and call_name(x) == 'getattr' and len(x.args) >= 2 and isinstance(x.args[0], ast.Name) and x.args[0].id == poly \
+                            and isinstance(try_fold(x.args[1]), str):
+                        attrs_.append(try_fold(x.args[1]))
+                    elif isinstance(x, ast.Attribute) and isinstance(x.value, ast.Name) and x.value.id == poly:
+                        attrs_.append(x.attr)
+            cols_ = [try_fold(x.slice) for h in n.handlers for b in h.body for x in ast.walk(b)
+                     if isinstance(x, ast.Subscript) and isinstance(x.value, ast.Name) and x.value.id == poly and isinstance(try_fold(x.slice), str)]
+            if len(attrs_) == 1 and len(cols_) == 1:
+                pmap[attrs_[0]] = cols_[0]
+                pmaps.append(n)
+    ctx.need(len(pmap) >= 4, 'is_in_polygon: attribute -> column fallbacks (try getattr / except AttributeError: column) not found')
     # producer: dtype list of the balkans recarray
     produced = None
+    fa_win = FA(f_win)
     for c in walk_local(f_win.node):
         if isinstance(c, ast.Call) and call_name(c) == 'recarray':
             for k in c.keywords:
-                if k.arg == 'dtype' and isinstance(k.value, ast.List):
-                    produced = [e.elts[0].value for e in k.value.elts if isinstance(e, ast.Tuple) and isinstance(e.elts[0], ast.Constant)]
+                dt = fa_win.deep(k.value) if k.arg == 'dtype' else None
+                if isinstance(dt, ast.List):
+                    produced = [e.elts[0].value for e in dt.elts if isinstance(e, ast.Tuple) and isinstance(e.elts[0], ast.Constant)]
     ctx.need(produced, 'window_read: dtype of the balkans record array not found')
     missing = sorted((set(need_init) - optional) - set(produced))
     ctx.check('C12.COLUMNS', not missing, f_win, f_win.node,
@@ -164,7 +184,7 @@ def check_slices(ctx, repo):
         rowk = any(isinstance(x, ast.Subscript) and isinstance(x.slice, ast.Name) and x.slice.id == k for x in ast.walk(t.value))
         col = 'XCAPS' if "'XCAPS'" in src(t) else 'CMCAPS'
         srccol = 'X' if col == 'XCAPS' else 'CM'
-        ok_src = ("['%s']" % srccol) in src(v)
+        ok_src = ("['%s']" % srccol) in src(expand(v, fa)) and "'bcaps'" in src(expand(v, fa))
         ctx.check('C12.SLICES', ok_len and ok_start and rowk and ok_src, f, st,
                   'window_read: %s[0:NCAPS[k]] of row k <- cap table %s rows ICAP[k] : ICAP[k]+NCAPS[k] (lengths equal as affine forms)' % (col, srccol),
                   msg='window_read copies caps for %s from rows [%s : %s] into slots of length %s of row k: expected rows '
@@ -179,7 +199,7 @@ def check_slices(ctx, repo):
     for st in presets:
         v = st.value
         ok = isinstance(v.op, ast.Sub) and try_fold(v.right) == 1 and isinstance(v.left, ast.BinOp) and isinstance(v.left.op, ast.LShift) \
-            and try_fold(v.left.left) == 1 and "'NCAPS'" in src(v.left.right)
+            and try_fold(v.left.left) == 1 and "'NCAPS'" in src(expand(v.left.right, fa)) and "'blist'" in src(expand(v.left.right, fa))
         ctx.check('C12.SLICES', ok, f, st, 'window_read presets USE_CAPS to (1 << NCAPS) - 1 (all caps used)',
                   msg='window_read presets USE_CAPS to %s, expected (1 << NCAPS) - 1' % src(v), construct='USE_CAPS preset ' + src(v))
     # scalar columns copied from the like-named blist columns
@@ -188,7 +208,7 @@ def check_slices(ctx, repo):
         if isinstance(st, ast.Assign) and isinstance(st.targets[0], ast.Subscript) and isinstance(st.targets[0].slice, ast.Constant) \
                 and st.targets[0].slice.value in pairs and "'balkans'" in src(st.targets[0]) and isinstance(st.value, ast.Subscript):
             want = pairs[st.targets[0].slice.value]
-            ctx.check('C12.SLICES', isinstance(st.value.slice, ast.Constant) and st.value.slice.value == want and "'blist'" in src(st.value), f, st,
+            ctx.check('C12.SLICES', isinstance(st.value.slice, ast.Constant) and st.value.slice.value == want and "'blist'" in src(expand(st.value, fa)), f, st,
                       'window_read: balkans.%s <- blist.%s' % (st.targets[0].slice.value, want),
                       msg='window_read fills balkans column %s from %s, expected blist column %s' % (st.targets[0].slice.value, src(st.value), want),
                       construct='column copy ' + src(st)[:80])
@@ -448,28 +468,106 @@ def check_and_all(ctx, repo):
         loop = next((a for a in ancestors(st) if isinstance(a, ast.For)), None)
         ctx.need(loop is not None and isinstance(loop.target, ast.Name), 'is_in_polygon: cap loop not found')
         i = loop.target.id
+        poly = f.params[0]
+        col2attr = {}
+        for n in walk_local(f.node):
+            if isinstance(n, ast.Try):
+                at = [try_fold(x.args[1]) for b_ in n.body for x in ast.walk(b_) if isinstance(x, ast.Call) and call_name(x) == 'getattr' and len(x.args) >= 2]
+                at += [x.attr for b_ in n.body for x in ast.walk(b_) if isinstance(x, ast.Attribute) and isinstance(x.value, ast.Name) and x.value.id == poly]
+                co = [try_fold(x.slice) for h in n.handlers for b_ in h.body for x in ast.walk(b_)
+                      if isinstance(x, ast.Subscript) and isinstance(x.value, ast.Name) and x.value.id == poly]
+                if len(at) == 1 and len(co) == 1 and isinstance(at[0], str) and isinstance(co[0], str):
+                    col2attr[co[0]] = at[0]
+
+        def role(e, depth=0):
+            """The ManglePolygon attribute an expression holds (by attribute or by its FITS column), else None."""
+            if depth > 5:
+                return None
+            if isinstance(e, ast.Call) and call_name(e) == 'getattr' and len(e.args) >= 2 and isinstance(e.args[0], ast.Name) and e.args[0].id == poly:
+                r = try_fold(e.args[1])
+                return r if isinstance(r, str) else None
+            if isinstance(e, ast.Attribute) and isinstance(e.value, ast.Name) and e.value.id == poly:
+                return e.attr
+            if isinstance(e, ast.Subscript) and isinstance(e.value, ast.Name) and e.value.id == poly and isinstance(try_fold(e.slice), str):
+                return col2attr.get(try_fold(e.slice))
+            if isinstance(e, ast.Name):
+                rs = {role(v, depth + 1) if v is not None else None for d, v in fa.defs(e)}
+                return rs.pop() if len(rs) == 1 else None
+            return None
         call = st.value
-        okc = isinstance(call, ast.Call) and call_name(call) == 'is_in_cap' and len(call.args) == 3 \
-            and "'x'" in src(call.args[0]) and ('[%s, :]' % i in src(call.args[0]) or '[%s]' % i in src(call.args[0])) \
-            and "'cm'" in src(call.args[1]) and '[%s]' % i in src(call.args[1]) and src(call.args[2]) == f.params[1]
+        g_cap = repo.func(MANGLE, 'is_in_cap')
+        okc = False
+        if isinstance(call, ast.Call) and call_name(call) == 'is_in_cap':
+            bound = dict(zip(g_cap.params, call.args))
+            bound.update({k.arg: k.value for k in call.keywords if k.arg})
+            ax, acm, apt = (bound.get(p_) for p_ in g_cap.params[:3])
+
+            def cap_item(e, what):
+                if not isinstance(e, ast.Subscript) or role(e.value) != what:
+                    return False
+                sl = e.slice
+                first = sl.elts[0] if isinstance(sl, ast.Tuple) else sl
+                rest = sl.elts[1:] if isinstance(sl, ast.Tuple) else []
+                return isinstance(first, ast.Name) and first.id == i and all(isinstance(r_, ast.Slice) and r_.lower is None and r_.upper is None for r_ in rest)
+            okc = ax is not None and acm is not None and cap_item(ax, 'x') and cap_item(acm, 'cm') and not isinstance(acm.slice, ast.Tuple) \
+                and isinstance(apt, ast.Name) and apt.id == f.params[1]
         ctx.check('C12.AND-ALL', okc, f, st, 'cap i contributes is_in_cap(x[i], cm[i], points)',
                   msg='the cap test is not is_in_cap(x[i], cm[i], points) for the loop index: %s' % src(call)[:80], construct='cap test ' + src(call)[:80])
-        par = getattr(st, '_parent', None)
-        okg = isinstance(par, ast.If) and st in par.body and isinstance(par.test, ast.Call) and call_name(par.test) == 'is_cap_used' \
-            and "'use_caps'" in src(par.test.args[0]) and src(par.test.args[1]) == i and not par.orelse
-        ctx.check('C12.AND-ALL', okg, f, par if isinstance(par, ast.If) else st, 'exactly the caps whose use bit is clear are skipped (is_cap_used(use_caps, i))',
-                  msg='the cap test is not guarded by is_cap_used(use_caps, i)', construct='use-mask guard')
+        conds = [(t, pol) for t, pol in path_conditions(st) if any(t is x or t in list(ast.walk(x)) for x in [loop])]
+        used = [(t, pol) for t, pol in conds if isinstance(t if pol else (t.operand if isinstance(t, ast.UnaryOp) and isinstance(t.op, ast.Not) else None), ast.Call)]
+        okg = False
+        if len(conds) == 1 and len(used) == 1:
+            t, pol = used[0]
+            c_ = t if pol else t.operand
+            okg = call_name(c_) == 'is_cap_used' and len(c_.args) == 2 and role(c_.args[0]) == 'use_caps' and isinstance(c_.args[1], ast.Name) and c_.args[1].id == i
+        ctx.check('C12.AND-ALL', okg, f, conds[0][0] if conds else st, 'exactly the caps whose use bit is clear are skipped (is_cap_used(use_caps, i))',
+                  msg='the cap test is not guarded by is_cap_used(use_caps, i) alone', construct='use-mask guard')
         it = fa.deep(loop.iter)
         okr = isinstance(it, ast.Call) and call_name(it) == 'range' and len(it.args) == 1
         lim_ok = False
-        if okr and isinstance(it.args[0], ast.Name):
-            ds = fa.defs(it.args[0])
-            vals = [src(v) for d, v in ds if v is not None]
-            lim_ok = len(vals) == 2 and "p['ncaps']" in vals and any(v.startswith('min(') and "p['ncaps']" in v and f.params[2] in v for v in vals)
-            mins = [d for d, v in ds if v is not None and src(v).startswith('min(')]
-            if lim_ok and mins:
-                par2 = getattr(mins[0], '_parent', None)
-                lim_ok = isinstance(par2, ast.If) and src(par2.test) in ('%s > 0' % f.params[2], '0 < %s' % f.params[2])
+        if okr:
+            lim = f.params[2]
+
+            def leaves(e, guard, depth=0):
+                if depth > 4:
+                    return [('?', guard)]
+                if isinstance(e, ast.IfExp):
+                    return leaves(e.body, (e.test, True), depth + 1) + leaves(e.orelse, (e.test, False), depth + 1)
+                if isinstance(e, ast.Name) and role(e) is None:
+                    out = []
+                    for d, v in fa.defs(e):
+                        if v is None:
+                            return [('?', guard)]
+                        pcs = [(t, pol) for t, pol in path_conditions(d)]
+                        out += leaves(v, guard or (pcs[0] if pcs else None), depth + 1)
+                    return out
+                if role(e) == 'ncaps':
+                    return [('attr', guard)]
+                if isinstance(e, ast.Call) and call_name(e) == 'min' and isinstance(e.func, ast.Name) and len(e.args) == 2:
+                    kinds = sorted('lim' if (isinstance(a_, ast.Name) and a_.id == lim and fa.is_param(a_)) else 'attr' if role(a_) == 'ncaps' else '?' for a_ in e.args)
+                    return [('min' if kinds == ['attr', 'lim'] else '?', guard)]
+                return [('?', guard)]
+            lv = leaves(it.args[0], None)
+
+            def positive(gd):
+                if gd is None:
+                    return None
+                t, pol = gd
+                t = canon_expr(t)
+                if isinstance(t, ast.Compare) and len(t.ops) == 1:
+                    l, r, op = t.left, t.comparators[0], t.ops[0]
+                    if isinstance(r, ast.Name) and r.id == lim and try_fold(l) == 0:
+                        l, r = r, l
+                        op = {ast.Lt: ast.Gt, ast.Gt: ast.Lt, ast.LtE: ast.GtE, ast.GtE: ast.LtE}.get(type(op), type(op))()
+                    if isinstance(l, ast.Name) and l.id == lim and try_fold(r) == 0:
+                        if isinstance(op, ast.Gt):
+                            return pol
+                        if isinstance(op, ast.LtE):
+                            return not pol
+                return None
+            kinds = {k_ for k_, gd in lv}
+            lim_ok = kinds == {'attr', 'min'} and all(positive(gd) is True for k_, gd in lv if k_ == 'min') \
+                and all(positive(gd) in (False, None) for k_, gd in lv if k_ == 'attr')
         ctx.check('C12.AND-ALL', okr and lim_ok, f, loop, 'caps visited: range(polygon.ncaps), or range(min(ncaps, polygon.ncaps)) when ncaps > 0',
                   msg='the cap loop does not visit range(min(ncaps, polygon.ncaps)) / range(polygon.ncaps): %s' % src(loop.iter), construct='cap range')
     # is_in_window
